@@ -419,4 +419,71 @@ def createDynamicKernel (c : KernelConfig) : Except ErrKind DynamicKernelDesc :=
 /-- Effective von Mises concentration of the radial kernel: zero when no direction is set. -/
 def effectiveKappa (d : Direction) (kappa : Rat) : Rat := if d = .none then 0 else kappa
 
+/-! ### The kernel `Model` builds for the pest overpopulation move (model.hpp) -/
+
+/-- The members the `Model` constructor derives from the configuration and
+    `create_overpopulation_movement_kernel` reads: `natural_kernel`, `anthro_kernel`,
+    `uniform_kernel(config.rows, config.cols)`, `natural_neighbor_kernel`, `anthro_neighbor_kernel`.
+    Any unknown kernel or direction name is `invalid_argument`. -/
+structure ModelKernelMembers where
+  naturalKernel : DispersalKernelType
+  anthroKernel : DispersalKernelType
+  uniformKernel : KernelDesc
+  naturalNeighbor : KernelDesc
+  anthroNeighbor : KernelDesc
+deriving DecidableEq, Repr, Inhabited
+
+def modelKernelMembers (c : KernelConfig) : Except ErrKind ModelKernelMembers := do
+  let n ← kernelTypeFromString c.naturalKernelType
+  let a ← kernelTypeFromString c.anthroKernelType
+  let nd ← directionFromString c.naturalDirection
+  let ad ← directionFromString c.anthroDirection
+  return { naturalKernel := n, anthroKernel := a, uniformKernel := .uniform c.rows c.cols,
+           naturalNeighbor := .neighbor nd, anthroNeighbor := .neighbor ad }
+
+/-- The `SwitchDispersalKernel` returned by `create_overpopulation_movement_kernel`: its selector and
+    its five member kernels, each described by its constructor arguments. -/
+structure OverpopKernelDesc where
+  type : DispersalKernelType
+  stochastic : Bool
+  radial : KernelDesc
+  deterministic : KernelDesc
+  uniform : KernelDesc
+  network : KernelDesc
+  neighbor : KernelDesc
+deriving DecidableEq, Repr, Inhabited
+
+/-- The member `SwitchDispersalKernel::operator()` calls. -/
+def OverpopKernelDesc.selected (k : OverpopKernelDesc) : KernelDesc :=
+  match switchSelect k.type k.stochastic with
+  | .uniform => k.uniform
+  | .neighbor => k.neighbor
+  | .network => k.network
+  | .deterministic => k.deterministic
+  | .radial => k.radial
+
+/-- `Model::create_overpopulation_movement_kernel` (after the `Model` constructor): the natural
+    kernel's parameters, with the scale of the radial and of the deterministic kernel multiplied by
+    `leaving_scale_coefficient`. Both are constructed whatever the selected type is, so the radial
+    constructor's guards apply to every configuration. (The deterministic constructor additionally
+    computes its window, C14; its own failures are not modelled here.) -/
+def createOverpopulationKernel (c : KernelConfig) (leavingScaleCoefficient : Rat) :
+    Except ErrKind OverpopKernelDesc := do
+  let m ← modelKernelMembers c
+  let d ← directionFromString c.naturalDirection
+  let scale := c.naturalScale * leavingScaleCoefficient
+  if radialCtorOk scale c.shape then
+    return { type := m.naturalKernel, stochastic := c.dispersalStochasticity,
+             radial := .radial c.ewRes c.nsRes m.naturalKernel scale d c.naturalKappa c.shape,
+             deterministic := .deterministic m.naturalKernel c.dispersalPercentage c.ewRes c.nsRes scale c.shape,
+             uniform := m.uniformKernel,
+             network := .networkWalk c.networkMinDistance c.networkMaxDistance false,
+             neighbor := m.naturalNeighbor }
+  else throw .invalid_argument
+
+/-- The uniform kernel object a description stands for. -/
+def KernelDesc.uniformKernel? : KernelDesc → Option UniformKernel
+  | .uniform rows cols => some (UniformKernel.make rows cols)
+  | _ => none
+
 end Pops
